@@ -4,7 +4,8 @@ B = 'github.com/ProjectSerenity/firefly/kbuild'
 
 PROP = {'pkg': 'github.com/ProjectSerenity/firefly/kernel/kfmt',
  'tests': [{'name': 'TestVerifC15', 'checks_quick': 200000, 'checks_thorough': 3000000},
-           {'name': 'TestVerifC15Raw', 'checks_quick': 60000, 'checks_thorough': 1000000, 'shards_quick': 2}],
+           {'name': 'TestVerifC15Raw', 'checks_quick': 60000, 'checks_thorough': 1000000, 'shards_quick': 2},
+           {'name': 'TestVerifC15Early', 'kind': 'plain'}],
  'fuzz': [{'name': 'FuzzVerifC15', 'seconds': 90}],
  'rule': 'rapid generates a format AST (literal runs, %%, %[width]verb with verb in d/x/o/s/t) plus an argument list '
          '(every built-in integer type at boundary values, strings/byte slices, bools, wrong types, too few / too '
@@ -12,7 +13,10 @@ PROP = {'pkg': 'github.com/ProjectSerenity/firefly/kernel/kfmt',
          'fmt.Sprintf) and AllocsPerRun must be 0. Non-trivial = >=2 verbs, >=1 explicit width and >=1 argument that '
          'is an integer boundary value, a type mismatch, missing or surplus; distinct = different hash of the JSON '
          'case. The Raw test feeds arbitrary format bytes + arguments and only requires no panic (non-trivial there = '
-         '>=2 percent signs and >=1 argument).',
+         '>=2 percent signs and >=1 argument). A fixed matrix of ~130 calls (every verb x integer type x width class, the '
+         'line pmm.Init prints, missing/surplus/wrong arguments) is also made from an init function that runs BEFORE '
+         'package kfmt\'s own initialiser (helper package reached by go:linkname), as the kernel does during early boot; '
+         'its output must equal what the same calls write later.',
  'technique': 'rapid-generated format/argument cases vs. independent reference formatter (differential with fmt), '
               'AllocsPerRun, native fuzzing for no-panic',
  'level_text': 'Generated-input search: every generated format/argument case is compared byte-for-byte with a '
